@@ -31,6 +31,11 @@ Definition init_aled (accts : list dacct) (w : dworld) (d : Z) : aled :=
      aB := ledB (dw_burnkey w) (dw_states w) (wbank_of w) d;
      aU := unbooked_z (dw_states w) (dw_bal w) d |}.
 
+Definition extend_aled (known all : list dacct) (w : dworld) (d : Z) (st : aled) : aled :=
+  {| aL := fun k => if existsb (fun a => da_key a =? k) known then aL st k
+                    else match find (fun a => da_key a =? k) all with Some a => ledA a (dw_states w) (wbank_of w) d | None => aL st k end;
+     aB := aB st; aU := aU st |}.
+
 (* coins arriving at an address: the main account, an account of the configuration, or somebody else *)
 Definition a_inflow_addr (accts : list dacct) (x : Z) (amount : Z) (st : aled) : aled :=
   if x =? MAINADDR then a_inflow_main amount st
@@ -46,11 +51,11 @@ Fixpoint ledger_walk (accts : list dacct) (denoms : list Z) (w : dworld) (sts : 
   | (DInflow a c, _) :: t =>
       ledger_walk accts denoms (dist_inflow w a c) (map (fun p => a_inflow_addr accts a (dc_amt (fst p) c) (snd p)) (combine denoms sts)) t (i + 1)
   | (DSetSubs subs, _) :: t =>
-      (* a parameter update: the machine is started again from the credited amounts reached so far, over the accounts of both
-         configurations *)
+      (* a parameter update (LedgerUpdates.v): the machine goes on with what it has credited so far; accounts the history had
+         not mentioned before enter with what the world holds for them (the theorem's account universe has them from the start) *)
       let w' := dist_set_subs w subs in
       let accts' := dedup_key (accts ++ flat_map sd_accounts subs) [] in
-      ledger_walk accts' denoms w' (map (init_aled accts' w') denoms) t (i + 1)
+      ledger_walk accts' denoms w' (map (fun p => extend_aled accts accts' w' (fst p) (snd p)) (combine denoms sts)) t (i + 1)
   | (DBlock faults, _) :: t =>
       match dist_begin_block w faults with
       | Ok (w', _, _) =>
